@@ -49,7 +49,7 @@ TARGETS = ["PulserModel.Generated.AbstractOps", "PulserModel.Serialize", "Proofs
 TIE_THEOREMS = {"defaults_agree", "top_level_agree", "coverage_complete", "expr_ops_agree", "flags_agree"}
 COUNTS = {"quick": 1000, "thorough": 20000}
 TOL = 1e-9
-KNOWN_BROKEN_OPERATORS = ["__round__", "rint"]   # as in Properties/C04.lean (finding F-C04-1)
+KNOWN_BROKEN_OPERATORS: list = []   # as in Properties/C04.lean (F-C04-1, rounding, is repaired)
 
 TRUSTED_BASE = [
     "Lean 4.33 kernel; axioms allowed: propext, Classical.choice, Quot.sound (audited per theorem)",
